@@ -59,11 +59,16 @@ def snapshot():
     return out
 
 BAD_TEXTS = ['ATTACHMENT\n  foo\x01\n', 'SCHEDULE h\n  ANNEXURE\n    x\x02\n  APPENDIX\n    y\n', 'a\n  SEC 1\x0b\n', 'P{1 x} foo\n',
-             'x {{FOOTNOTE 1}}\nFOOTNOTE 1\n  y\x03\n', 'ATTACHMENT\n  ATTACHMENT\n    ATTACHMENT\n      z\x04\n']
+             'x {{FOOTNOTE 1}}\nFOOTNOTE 1\n  y\x03\n', 'ATTACHMENT\n  ATTACHMENT\n    ATTACHMENT\n      z\x04\n',
+             # ... in the heading / subheading of an attachment (converted before its body), of a nested one, of a hierarchical element
+             'BODY\n  Some text.\n\nSCHEDULE First \x01 schedule\n  Text.\n', 'x\nANNEXURE h\n  SUBHEADING s\x02\n  t\n', 'x\nSCHEDULE a\n  y\n  APPENDIX b\x05\n    z\n',
+             'PART 1 - h\x06\n  x\n', 'SEC 1\n  SUBHEADING s\x07\n  x\n', 'x\nSCHEDULE{a\x01b c} h\n  y\n']
 BAD_DICTS = [{'type': 'element', 'name': 'attachment', 'attribs': {'name': 'schedule'}, 'children': [{'type': 'nope', 'name': 'x'}]},
              {'type': 'hier', 'name': 'section', 'children': [{'type': 'text', 'value': 'x'}]},
              {'type': 'element', 'name': 'attachment', 'children': [{'type': 'element', 'name': 'attachment'}]},
-             {'type': 'content', 'name': 'p', 'children': [{'type': 'text', 'value': 'bad\x00'}]}]
+             {'type': 'content', 'name': 'p', 'children': [{'type': 'text', 'value': 'bad\x00'}]},
+             {'type': 'element', 'name': 'attachment', 'attribs': {'name': 'schedule'}, 'heading': [{'type': 'nope'}], 'children': [{'type': 'content', 'name': 'p', 'children': [{'type': 'text', 'value': 'x'}]}]},
+             {'type': 'element', 'name': 'attachment', 'attribs': {'name': 'annexure'}, 'subheading': [{'type': 'text', 'value': 'bad\x01'}], 'children': []}]
 
 def make_history(rng, nobj):
     h = []
